@@ -91,6 +91,9 @@ def depth1(st0, tier):
             hs.append(('raw', lab))
     for lab, _ in lib_ops(st0):
         hs.append(('lib', lab))
+    # a mesh that carries a spare point after its last used vertex (part of a hybrid `a @ b`, a file with extra points)
+    if st0.cls in mo.FIRST_ORDER:
+        hs.append(('spare', ''))
     # triangle meshes for which the caller switched off per-cell vertex sorting (legal; adaptive
     # refinement and oriented() produce them): then local vertex order is real
     if st0.cls == 'MeshTri1':
@@ -130,6 +133,9 @@ def state_of(name, how, lab, seed):
             if l == lab:
                 return nx
         raise KeyError(lab)
+    if how == 'spare':
+        far = st0.p.max(axis=1, keepdims=True) + 1.0
+        return ms.St(st0.cls, np.hstack((st0.p, far)), st0.t, kw=st0.kw, hist=st0.hist + ('spare trailing point',))
     if how == 'unsorted':
         u = unsorted_state(st0)
         if lab == '':
